@@ -143,7 +143,17 @@ def _tree_stamp():
             h.update(f"{f}:{st.st_mtime_ns}:{st.st_size}\n".encode())
         except OSError:
             pass
-    h.update(os.environ.get("VERIF_EXTRA_OVERLAY", "").encode())
+    extra = os.environ.get("VERIF_EXTRA_OVERLAY", "")
+    h.update(extra.encode())
+    if extra and os.path.exists(extra):
+        try:
+            with open(extra) as f:
+                ov = json.load(f)
+            for k, v in sorted(ov.get("Replace", {}).items()):
+                st = os.stat(v)
+                h.update(f"{k}:{v}:{st.st_mtime_ns}:{st.st_size}\n".encode())
+        except (OSError, ValueError):
+            pass
     return h.hexdigest()
 
 
